@@ -539,6 +539,9 @@ def shrink_ident(p, y, r, v, q, key):
     return cur['A'], cur['V'], cur['M']
 
 
+POLE_SENSITIVE = ('euler-roundtrip', 'gimbal-bound', 'assoc-vec-angle')
+
+
 def search_identities(ck: Ck, found: dict) -> None:
     n = ck.budget(1500, 40000)
     corpus = [((0.0, 0.0, 0.0), (1.0, 2.0, 3.0), (10.0, 20.0, 30.0)), ((90.0, 0.0, 0.0), (1.0, 0.0, 0.0), (0.0, 90.0, 0.0)),
@@ -565,13 +568,60 @@ def search_identities(ck: Ck, found: dict) -> None:
         if (p % 360, y % 360, r % 360) != (0, 0, 0):
             ck.seen(('id', p, y, r, v, q))
         for key, desc in ident_problems(p, y, r, v, q):
-            full = f'{key}:{acls if acls in ("near-pole", "pole") else "general"}'
+            # the input class is part of the key only where the pole matters
+            full = f'{key}:{acls if acls in ("near-pole", "pole") else "general"}' if key in POLE_SENSITIVE else key
             if full in found:
                 continue
             a2, v2, q2 = shrink_ident(p, y, r, v, q, key)
             d = [x for k, x in ident_problems(*a2, v2, q2) if k == key]
             found[full] = (d[0] if d else desc, {'kind': 'identity', 'angle': a2, 'vector': v2, 'second_angle': q2, 'identity': key})
     ck.sample({'identity_case': {'angle': (90.0 - 1e-7, 30.0, 60.0), 'to_angle': str(__import__('srctools.math', fromlist=['Matrix']).Matrix.from_angle(90.0 - 1e-7, 30.0, 60.0).to_angle())}})
+
+
+# =============================================================================================== axioms
+def theorems_with_axioms(ck: Ck, props_file: str = 'Props/C04.v') -> None:
+    """Same job as Ck.theorems (one `theorem:` obligation per theorem, axioms recorded), with a complete parser:
+    harness.common._split_assumptions only sees axioms printed as `name : type` on ONE line, while the classical-reals
+    axioms are printed with the type on the following line."""
+    import re
+    from harness.common import ROCQ
+    names = re.findall(r"^\s*(?:Theorem|Lemma|Corollary)\s+([A-Za-z0-9_']+)", (ROCQ / props_file).read_text(), re.M)
+    body = 'Require Import SV.Props.C04.\n' + ''.join(f'Print Assumptions {n}.\n' for n in names)
+    rc, out = ck.coq_scratch(body, 'assumptions')
+    if rc != 0:
+        ck.obligation(f'assumptions:{props_file}', False, out[-2000:])
+        ck.tie_broken.append(f'Print Assumptions failed for {props_file}')
+        return
+    blocks: list[list[str]] = []
+    cur: list[str] | None = None
+    for line in out.splitlines():
+        if line.startswith('Closed under the global context'):
+            if cur is not None:
+                blocks.append(cur)
+                cur = None
+            blocks.append([])
+        elif line.startswith('Axioms:'):
+            if cur is not None:
+                blocks.append(cur)
+            cur = []
+        elif cur is not None:
+            m = re.match(r"^([A-Za-z_][A-Za-z0-9_.']*)\s*(:|$)", line)
+            if m:
+                cur.append(m.group(1))
+    if cur is not None:
+        blocks.append(cur)
+    if len(blocks) != len(names):
+        ck.obligation(f'assumptions:{props_file}', False, f'{len(names)} theorems but {len(blocks)} Print Assumptions blocks')
+        return
+    for n, b in zip(names, blocks):
+        ck.axioms[n] = b
+        ck.obligation(f'theorem:{n}', True, 'Qed; axioms: ' + ('none (closed under the global context)' if not b else ', '.join(b)))
+    allowed = {'ClassicalDedekindReals.sig_forall_dec', 'ClassicalDedekindReals.sig_not_dec',
+               'FunctionalExtensionality.functional_extensionality_dep'}
+    used = {a for b in blocks for a in b}
+    ck.obligation('assumptions:only-classical-reals', used <= allowed,
+                  'axioms used by Props/C04.v: ' + (', '.join(sorted(used)) or 'none') +
+                  ('' if used <= allowed else ' -- UNEXPECTED: ' + ', '.join(sorted(used - allowed))))
 
 
 # =============================================================================================== main
@@ -600,7 +650,7 @@ def run(ck: Ck) -> None:
         core = ck.build(['Rot/RotAlgebra.vo', 'Rot/RotEulerProofs.vo', 'Rot/RotDispatchProofs.vo', 'Gen/RotDispatch_gen.vo'])
         built = core and ck.build(['Props/C04.vo'])
         if built:
-            ck.theorems('Props/C04.v')
+            theorems_with_axioms(ck)
         ck.instance_obligations(DISP_IMPORTS, {
             'dispatch_matmul_rows_ok': 'forallb (fun t => triple_ok t && handled t) (rows_of FMatmul dispatch_table)',
             'dispatch_imatmul_rows_ok': 'forallb (fun t => triple_ok t && handled t) (rows_of FImatmul dispatch_table)',
@@ -625,10 +675,50 @@ def run(ck: Ck) -> None:
     if any(k.startswith(('left-operand-mutated', 'right-operand-mutated', 'result-not-fresh', 'value-mismatch', 'unsupported',
                          'exception', 'result-kind')) for k in keys):
         ck.explain('instance:dispatch_')
-    if any(k.startswith('value-mismatch') and k.endswith(':same-object') for k in keys):
-        for o in ck.obligations:
-            if o['name'].startswith('build:') and not o['ok'] and 'RotAliasProofs' in o['detail']:
-                o['explained'] = True
+    explain_build(ck, keys)
+
+
+# Which concrete violation (key prefix) exhibits the failure of which lemma.  A failed proof build is marked as explained
+# only when the lemma that stopped the build is listed here AND the search produced a matching replayable input.
+LEMMA_EXPLAINED_BY = {
+    'from_angle_orthonormal': ('from-angle-not-orthonormal',), 'from_angle_det_one': ('from-angle-determinant',),
+    'from_angle_obj_eq': ('value-mismatch',), 'from_axis_rotation': ('from_roll-formula', 'from_pitch-formula', 'from_yaw-formula'),
+    'from_angle_convention': ('convention-',), 'axis_fixed': ('from_roll-formula', 'from_pitch-formula', 'from_yaw-formula'),
+    'handedness': ('from_roll-formula', 'from_pitch-formula', 'from_yaw-formula'),
+    'mat_mul_assoc': ('assoc-matrix',), 'vec_rot_assoc': ('assoc-vec-matrix',), 'mat_mul_I_l': ('assoc-matrix', 'value-mismatch:Matrix'),
+    'mat_mul_I_r': ('assoc-matrix', 'value-mismatch:Matrix'), 'vec_rot_I': ('assoc-vec-matrix', 'value-mismatch:Vec'),
+    'det_mul': ('assoc-matrix', 'value-mismatch:Matrix'), 'transpose_involutive': ('transpose-formula',),
+    'det_transpose': ('transpose-formula',), 'orthonormal_transpose': ('transpose-formula',),
+    'orthonormal_mul_transpose': ('transpose-formula', 'inverse-vs-transpose'), 'transpose_mul': ('transpose-formula',),
+    'vec_rot_len': ('assoc-vec-matrix', 'value-mismatch:Vec'),
+    'mat_mul_self_eq': ('value-mismatch:Matrix:same-object',),
+    'ta_guard_horiz': ('euler-roundtrip', 'gimbal-bound'), 'euler_roundtrip': ('euler-roundtrip',),
+    'gimbal_error_bound': ('gimbal-bound',),
+}
+
+
+def explain_build(ck: Ck, keys: set) -> None:
+    import re
+    from harness.common import ROCQ
+    for o in ck.obligations:
+        if o['ok'] or not o['name'].startswith('build:'):
+            continue
+        m = re.search(r'build failed at ([A-Za-z0-9_/]+\.v):(\d+)', o['detail'])
+        if not m:
+            continue
+        try:
+            lines = (ROCQ / m.group(1)).read_text().splitlines()[:int(m.group(2))]
+        except OSError:
+            continue
+        lemma = None
+        for ln in reversed(lines):
+            mm = re.match(r'\s*(?:Lemma|Theorem|Corollary)\s+([A-Za-z0-9_\']+)', ln)
+            if mm:
+                lemma = mm.group(1)
+                break
+        ck.extra['failed_lemma'] = f'{m.group(1)}:{m.group(2)} ({lemma})'
+        if lemma in LEMMA_EXPLAINED_BY and any(k.startswith(LEMMA_EXPLAINED_BY[lemma]) for k in keys):
+            o['explained'] = True
 
 
 def replay(data: dict) -> int:
